@@ -20,6 +20,9 @@
 // ts (with a handler): what the handler's token source does while the message is sent: tserr (TokenSource fails), tokerr
 // (Token() fails), invalidgrant (Token() fails with oauth2 invalid_grant: the request goes out without a header).
 // bg=posthang: another call of the same session is in flight the whole time (its POST accepted, never answered).
+// proto=new: the session runs the 2026-07-28 protocol (server/discover instead of initialize): the peer sends no session
+// id (an answer `…:x` still carries one), there is no standalone stream. strict=1: StreamableClientTransport.strict.
+// close=w|f: ClientSession.Close is called 500 ms / 5 s after the message was started (record `closed`).
 // cancel=1: the caller's context is cancelled one virtual hour after the message was started, if it is still on its
 // way.  `hang`: the request method had not returned two virtual hours after the start (every goroutine blocked).
 package mcp
@@ -47,6 +50,9 @@ type cwScenario struct {
 	kind   string // call | notif
 	auth   string // none | grant | deny | block
 	ts     string // the handler's token source: "" = fine | tserr | tokerr | invalidgrant
+	proto  string // "" (2025-11-25, initialize, a session) | new (2026-07-28 after server/discover: no session id, no standalone stream)
+	strict bool   // StreamableClientTransport.strict
+	close  string // "" | w | f: the session is CLOSED 500 ms (w) / 5 s (f) of virtual time after the message was started
 	bg     string // "" | posthang: ANOTHER call of the same session is in flight meanwhile (its POST accepted, never answered)
 	cancel bool
 	a1, a2 string
@@ -64,7 +70,17 @@ func (s *cwScenario) op() string {
 	if s.bg != "" {
 		ts += " bg=" + s.bg
 	}
-	return fmt.Sprintf("wscn kind=%s auth=%s%s cancel=%d a1=%s a2=%s", s.kind, s.auth, ts, c, s.a1, s.a2)
+	if s.close != "" {
+		ts += " close=" + s.close
+	}
+	pre := ""
+	if s.proto != "" {
+		pre += "proto=" + s.proto + " "
+	}
+	if s.strict {
+		pre += "strict=1 "
+	}
+	return fmt.Sprintf("wscn %skind=%s auth=%s%s cancel=%d a1=%s a2=%s", pre, s.kind, s.auth, ts, c, s.a1, s.a2)
 }
 
 func cwParseScenario(line string) (*cwScenario, error) {
@@ -84,6 +100,18 @@ func cwParseScenario(line string) (*cwScenario, error) {
 			if v != "fine" {
 				s.ts = v
 			}
+		case "proto":
+			if v != "new" {
+				return nil, fmt.Errorf("bad proto")
+			}
+			s.proto = v
+		case "strict":
+			s.strict = v == "1"
+		case "close":
+			if v != "w" && v != "f" {
+				return nil, fmt.Errorf("bad close")
+			}
+			s.close = v
 		case "bg":
 			if v != "posthang" {
 				return nil, fmt.Errorf("bad bg")
@@ -166,6 +194,8 @@ type cwServer struct {
 	mu     sync.Mutex
 	phase  string // init | bg | test | probe
 	bgPending int
+	resumeFails bool // the served event stream was `ssecutt`: its resumption GETs fail in transport
+	resumes   int // resumption GETs of the message's event stream
 	deletes   int // DELETE requests (the session is deleted at Close unless the server has said that it is gone)
 	posts  int
 	toks   []bool
@@ -187,11 +217,37 @@ func (b *cwCutBody) Read(p []byte) (int, error) {
 }
 func (b *cwCutBody) Close() error { return nil }
 
+// cwOpenBody: the data, then the body stays open: Read returns when the request's context ends
+type cwOpenBody struct {
+	data []byte
+	pos  int
+	ctx  context.Context
+}
+
+func (b *cwOpenBody) Read(p []byte) (int, error) {
+	if b.pos < len(b.data) {
+		n := copy(p, b.data[b.pos:])
+		b.pos += n
+		return n, nil
+	}
+	<-b.ctx.Done()
+	return 0, b.ctx.Err()
+}
+func (b *cwOpenBody) Close() error { return nil }
+
 // cwHangBody: the body does not come; Read returns when the request's context ends
 type cwHangBody struct{ ctx context.Context }
 
 func (b *cwHangBody) Read(p []byte) (int, error) { <-b.ctx.Done(); return 0, b.ctx.Err() }
 func (b *cwHangBody) Close() error               { return nil }
+
+// sid: the session id the peer puts on its answers ("" under the sessionless protocol)
+func (sv *cwServer) sid() string {
+	if sv.s.proto == "new" {
+		return ""
+	}
+	return "sess"
+}
 
 func (sv *cwServer) resp(req *http.Request, status int, ctype, sid, body string) *http.Response {
 	h := http.Header{}
@@ -222,15 +278,15 @@ func (sv *cwServer) answer(req *http.Request, a string, idJSON string) (*http.Re
 			break
 		}
 		if rpc {
-			return sv.resp(req, code, "application/json", "sess", fmt.Sprintf(`{"jsonrpc":"2.0","id":%s,"error":{"code":-32000,"message":"verif-rpc-error"}}`, idJSON)), nil
+			return sv.resp(req, code, "application/json", sv.sid(), fmt.Sprintf(`{"jsonrpc":"2.0","id":%s,"error":{"code":-32000,"message":"verif-rpc-error"}}`, idJSON)), nil
 		}
-		return sv.resp(req, code, "", "sess", ""), nil
+		return sv.resp(req, code, "", sv.sid(), ""), nil
 	case strings.HasPrefix(a, "ok:"):
 		p := strings.Split(a, ":")
 		if len(p) != 3 {
 			break
 		}
-		sid := "sess"
+		sid := sv.sid()
 		if p[2] == "x" {
 			sid = "another-session"
 		}
@@ -251,6 +307,21 @@ func (sv *cwServer) answer(req *http.Request, a string, idJSON string) (*http.Re
 			rec := httptest.NewRecorder()
 			writeEvent(rec, Event{Name: "message", Data: []byte(result)})
 			return sv.resp(req, 200, "text/event-stream", sid, rec.Body.String()), nil
+		case "sseopen", "ssecuth", "ssecutt":
+			// an event stream that starts with a priming event carrying an id; sseopen: then stays open without events;
+			// ssecuth / ssecutt: then ends cleanly, and the resumption GETs are accepted and never answered / fail in transport
+			rec := httptest.NewRecorder()
+			writeEvent(rec, Event{ID: "w_0", Data: []byte{}})
+			r := sv.resp(req, 200, "text/event-stream", sid, rec.Body.String())
+			sv.mu.Lock()
+			sv.resumeFails = p[1] == "ssecutt" // how the resumption GETs of THIS stream are answered
+			sv.mu.Unlock()
+			if p[1] == "sseopen" {
+				r.Body = &cwOpenBody{data: rec.Body.Bytes(), ctx: req.Context()}
+			}
+			return r, nil
+		case "accepted":
+			return sv.resp(req, http.StatusAccepted, "", sid, ""), nil
 		case "other":
 			return sv.resp(req, 200, "text/plain", sid, "hello"), nil
 		}
@@ -269,16 +340,30 @@ func (sv *cwServer) RoundTrip(req *http.Request) (*http.Response, error) {
 		sv.mu.Unlock()
 		return sv.resp(req, http.StatusNoContent, "", "", ""), nil
 	case http.MethodGet:
-		return sv.resp(req, http.StatusMethodNotAllowed, "", "sess", ""), nil // no standalone stream
+		if req.Header.Get(lastEventIDHeader) != "" {
+			// the resumption of the message's event stream (ssecuth / ssecutt)
+			sv.mu.Lock()
+			sv.resumes++
+			sv.mu.Unlock()
+			sv.mu.Lock()
+			failing := sv.resumeFails
+			sv.mu.Unlock()
+			if failing {
+				return nil, errors.New("verif: transport error")
+			}
+			<-req.Context().Done()
+			return nil, req.Context().Err()
+		}
+		return sv.resp(req, http.StatusMethodNotAllowed, "", sv.sid(), ""), nil // no standalone stream
 	case http.MethodPost:
 		body, _ := io.ReadAll(req.Body)
 		msg, err := jsonrpc.DecodeMessage(body)
 		if err != nil {
-			return sv.resp(req, 400, "", "sess", ""), nil
+			return sv.resp(req, 400, "", sv.sid(), ""), nil
 		}
 		r, ok := msg.(*jsonrpc.Request)
 		if !ok {
-			return sv.resp(req, http.StatusAccepted, "", "sess", ""), nil
+			return sv.resp(req, http.StatusAccepted, "", sv.sid(), ""), nil
 		}
 		idJSON := "1" // a JSON-RPC error sent in answer to a notification names some id (with id null the SDK does not decode it as a response)
 		if r.IsCall() {
@@ -318,14 +403,19 @@ func (sv *cwServer) RoundTrip(req *http.Request) (*http.Response, error) {
 			return nil, errors.New("verif: transport error")
 		}
 		switch {
+		case r.Method == methodDiscover:
+			if sv.s.proto != "new" {
+				return sv.resp(req, 400, "", sv.sid(), ""), nil
+			}
+			return sv.resp(req, 200, "application/json", "", fmt.Sprintf(`{"jsonrpc":"2.0","id":%s,"result":{"supportedVersions":[%q],"capabilities":{},"_meta":{%q:{"name":"verif","version":"0"}}}}`, idJSON, protocolVersion20260728, MetaKeyServerInfo)), nil
 		case r.Method == methodInitialize:
-			return sv.resp(req, 200, "application/json", "sess", fmt.Sprintf(`{"jsonrpc":"2.0","id":%s,"result":{"capabilities":{},"protocolVersion":%q,"serverInfo":{"name":"verif","version":"0"}}}`, idJSON, protocolVersion20251125)), nil
+			return sv.resp(req, 200, "application/json", sv.sid(), fmt.Sprintf(`{"jsonrpc":"2.0","id":%s,"result":{"capabilities":{},"protocolVersion":%q,"serverInfo":{"name":"verif","version":"0"}}}`, idJSON, protocolVersion20251125)), nil
 		case !r.IsCall():
-			return sv.resp(req, http.StatusAccepted, "", "sess", ""), nil
+			return sv.resp(req, http.StatusAccepted, "", sv.sid(), ""), nil
 		case r.Method == methodPing:
-			return sv.resp(req, 200, "application/json", "sess", fmt.Sprintf(`{"jsonrpc":"2.0","id":%s,"result":{}}`, idJSON)), nil
+			return sv.resp(req, 200, "application/json", sv.sid(), fmt.Sprintf(`{"jsonrpc":"2.0","id":%s,"result":{}}`, idJSON)), nil
 		}
-		return sv.resp(req, 400, "", "sess", ""), nil
+		return sv.resp(req, 400, "", sv.sid(), ""), nil
 	}
 	return sv.resp(req, 405, "", "", ""), nil
 }
@@ -347,12 +437,16 @@ func cwErrKind(err error) string {
 		return "session-missing"
 	case strings.Contains(m, "mismatching session IDs"):
 		return "mismatch"
+	case strings.Contains(m, "unexpected status code"):
+		return "unexpected-status"
 	case strings.Contains(m, "unsupported content type"):
 		return "ctype"
 	case strings.Contains(m, "failed to read body"):
 		return "body"
 	case strings.Contains(m, "failed to decode response"):
 		return "decode"
+	case strings.Contains(m, "failed to reconnect"):
+		return "reconnect"
 	case strings.Contains(m, "verif: transport error"):
 		return "terr"
 	case errors.Is(err, context.Canceled) || strings.Contains(m, "context canceled") ||
@@ -373,6 +467,8 @@ type cwResult struct {
 	auths int
 	end   string
 	probe string
+	closed string // close scenarios: did Close return
+	leak  bool
 	dels  int
 	bad   []string
 }
@@ -384,7 +480,11 @@ func cwRun(t *testing.T, s *cwScenario) (res cwResult) {
 	func() {
 		defer func() {
 			if r := recover(); r != nil {
-				sv.bad = append(sv.bad, "bubble:"+hxs(fmt.Sprint(r)))
+				if s.close != "" && strings.Contains(fmt.Sprint(r), "deadlock") {
+					res.leak = true // goroutines remain blocked for ever after Close: the bubble cannot exit
+				} else {
+					sv.bad = append(sv.bad, "bubble:"+hxs(fmt.Sprint(r)))
+				}
 			}
 		}()
 		synctest.Test(t, func(t *testing.T) {
@@ -396,13 +496,18 @@ func cwRun(t *testing.T, s *cwScenario) (res cwResult) {
 			}()
 			client := NewClient(&Implementation{Name: "verif", Version: "0"}, nil)
 			tr := &StreamableClientTransport{Endpoint: "http://verif.invalid/mcp", HTTPClient: &http.Client{Transport: sv}}
+			tr.strict = s.strict
+			pv := protocolVersion20251125
+			if s.proto == "new" {
+				pv = protocolVersion20260728
+			}
 			if s.auth != "none" {
 				ah = &cwAuth{mode: s.auth, ts: s.ts}
 				tr.OAuthHandler = ah
 			}
 			ctx, cancel := context.WithCancel(context.Background())
 			defer cancel()
-			cs, err := client.Connect(ctx, tr, &ClientSessionOptions{ProtocolVersion: protocolVersion20251125})
+			cs, err := client.Connect(ctx, tr, &ClientSessionOptions{ProtocolVersion: pv})
 			if err != nil {
 				res.end = "connect-failed:" + cwErrKind(err)
 				return
@@ -447,13 +552,46 @@ func cwRun(t *testing.T, s *cwScenario) (res cwResult) {
 					err = cs.NotifyProgress(callCtx, &ProgressNotificationParams{ProgressToken: "p", Progress: 1})
 				}
 				if err != nil {
+					if s.close != "" && errors.Is(err, ErrConnectionClosed) {
+						done <- "err:closed"
+						return
+					}
 					done <- "err:" + cwErrKind(err)
 					return
 				}
 				done <- ok
 			}()
+			closeDone := make(chan struct{})
+			if s.close != "" {
+				if s.close == "w" {
+					time.Sleep(500 * time.Millisecond)
+				} else {
+					time.Sleep(5 * time.Second)
+				}
+				synctest.Wait()
+				go func() {
+					cs.Close()
+					close(closeDone)
+				}()
+				time.Sleep(time.Minute)
+				synctest.Wait()
+				select {
+				case <-closeDone:
+					res.closed = "at1m=returned"
+				default:
+					res.closed = "at1m=blocked"
+				}
+			}
 			time.Sleep(2 * time.Hour)
 			synctest.Wait()
+			if s.close != "" {
+				select {
+				case <-closeDone:
+					res.closed += " final=returned"
+				default:
+					res.closed += " final=blocked"
+				}
+			}
 			select {
 			case e := <-done:
 				res.end = e
@@ -473,6 +611,9 @@ func cwRun(t *testing.T, s *cwScenario) (res cwResult) {
 				pctx, stop := context.WithTimeout(ctx, time.Hour)
 				if err := cs.Ping(pctx, nil); err != nil {
 					res.probe = "err"
+					if s.close != "" && errors.Is(err, ErrConnectionClosed) {
+						res.probe = "closed"
+					}
 				} else {
 					res.probe = "ok"
 				}
@@ -518,6 +659,12 @@ func cwEmit(out *verifOut, cs string, s *cwScenario, r cwResult, extra ...string
 	if s.ts != "" {
 		extra = append(extra, "ts-"+s.ts)
 	}
+	if s.proto != "" {
+		extra = append(extra, "proto-"+s.proto)
+	}
+	if s.strict {
+		extra = append(extra, "strict")
+	}
 	if s.bg != "" {
 		extra = append(extra, "bg-"+s.bg)
 	}
@@ -533,6 +680,13 @@ func cwEmit(out *verifOut, cs string, s *cwScenario, r cwResult, extra ...string
 		} else {
 			tb += "0"
 		}
+	}
+	if s.close != "" {
+		lk := "none"
+		if r.leak {
+			lk = "leak"
+		}
+		out.line(cs, "closed", r.closed+" leak="+lk, "close-"+s.close)
 	}
 	out.line(cs, "posts", fmt.Sprintf("n=%d tok=%s auth=%d", r.posts, tb, r.auths), fmt.Sprintf("posts-%d", r.posts), fmt.Sprintf("authorize-%d", r.auths))
 	e := r.end
@@ -550,6 +704,7 @@ func cwEmit(out *verifOut, cs string, s *cwScenario, r cwResult, extra ...string
 //	oscn mr=<MaxRetries field> fails=<n> ans=st<code>[e]      obs ok
 //	open                                                      obs gets=<GETs made>
 //	probe                                                     obs ok | err
+//	oclose                                                    obs <returned|blocked> leak=<none|leak>   (ClientSession.Close, one minute later)
 //
 // The first <fails> GETs fail in transport; the next one is answered with the status, `e`: under Content-Type
 // text/event-stream (a 2xx event stream then stays open without events).
@@ -559,6 +714,7 @@ type coScenario struct {
 	fails int
 	code  int
 	sse   bool
+	strict bool // StreamableClientTransport.strict
 }
 
 func (s *coScenario) op() string {
@@ -566,12 +722,15 @@ func (s *coScenario) op() string {
 	if s.sse {
 		e = "e"
 	}
+	if s.strict {
+		e += " strict=1"
+	}
 	return fmt.Sprintf("oscn mr=%d fails=%d ans=st%d%s", s.mr, s.fails, s.code, e)
 }
 
 func coParseScenario(line string) (*coScenario, error) {
 	toks := strings.Fields(line)
-	if len(toks) != 4 || toks[0] != "oscn" {
+	if len(toks) < 4 || toks[0] != "oscn" {
 		return nil, fmt.Errorf("not an oscn op")
 	}
 	s := &coScenario{}
@@ -581,6 +740,8 @@ func coParseScenario(line string) (*coScenario, error) {
 		switch k {
 		case "mr":
 			s.mr, err = strconv.Atoi(v)
+		case "strict":
+			s.strict = v == "1"
 		case "fails":
 			s.fails, err = strconv.Atoi(v)
 		case "ans":
@@ -643,18 +804,24 @@ func (sv *coServer) RoundTrip(req *http.Request) (*http.Response, error) {
 	return base.resp(req, http.StatusNoContent, "", "", ""), nil
 }
 
-func coRun(t *testing.T, s *coScenario) (gets int, probe string, bad string) {
+func coRun(t *testing.T, s *coScenario) (gets int, probe string, bad string, closed string) {
 	probe = "harness-aborted"
+	closed = "not-reached"
 	sv := &coServer{s: s}
 	func() {
 		defer func() {
 			if r := recover(); r != nil {
-				bad = "bubble:" + hxs(fmt.Sprint(r))
+				if strings.Contains(fmt.Sprint(r), "deadlock") && strings.HasPrefix(closed, "returned") {
+					closed = "returned leak=leak" // goroutines remain blocked for ever after Close
+				} else {
+					bad = "bubble:" + hxs(fmt.Sprint(r))
+				}
 			}
 		}()
 		synctest.Test(t, func(t *testing.T) {
 			client := NewClient(&Implementation{Name: "verif", Version: "0"}, nil)
 			tr := &StreamableClientTransport{Endpoint: "http://verif.invalid/mcp", HTTPClient: &http.Client{Transport: sv}, MaxRetries: s.mr}
+			tr.strict = s.strict
 			ctx, cancel := context.WithCancel(context.Background())
 			defer cancel()
 			cs, err := client.Connect(ctx, tr, &ClientSessionOptions{ProtocolVersion: protocolVersion20251125})
@@ -663,6 +830,7 @@ func coRun(t *testing.T, s *coScenario) (gets int, probe string, bad string) {
 				gets = sv.gets
 				sv.mu.Unlock()
 				probe = "err" // Connect itself fails when the opening of the standalone stream has failed the connection
+				closed = "returned leak=none"
 				return
 			}
 			time.Sleep(2 * time.Hour)
@@ -677,15 +845,28 @@ func coRun(t *testing.T, s *coScenario) (gets int, probe string, bad string) {
 				probe = "ok"
 			}
 			stop()
+			// Close while the standalone stream (if one was opened) is being read: no call is pending, so Close returns
+			closeDone := make(chan struct{})
+			go func() {
+				cs.Close()
+				close(closeDone)
+			}()
+			time.Sleep(time.Minute)
+			synctest.Wait()
+			select {
+			case <-closeDone:
+				closed = "returned leak=none"
+			default:
+				closed = "blocked leak=none"
+			}
 			cancel()
-			cs.Close()
 			synctest.Wait()
 		})
 	}()
 	return
 }
 
-func coEmit(out *verifOut, cs string, s *coScenario, gets int, probe, bad string, extra ...string) {
+func coEmit(out *verifOut, cs string, s *coScenario, gets int, probe, bad, closed string, extra ...string) {
 	out.line(cs, "reset", "ok")
 	obs := "ok"
 	if bad != "" {
@@ -699,6 +880,7 @@ func coEmit(out *verifOut, cs string, s *coScenario, gets int, probe, bad string
 	out.line(cs, s.op(), obs, tags...)
 	out.line(cs, "open", fmt.Sprintf("gets=%d", gets), fmt.Sprintf("open-gets-%d", min(gets, 9)))
 	out.line(cs, "probe", probe, "probe-"+probe)
+	out.line(cs, "oclose", closed, "oclose-"+strings.ReplaceAll(closed, " ", "-"))
 }
 
 // coGenerate: MaxRetries {default, 1, 2, none} x transport failures 0..budget+1 x the answers
@@ -718,6 +900,9 @@ func coGenerate(emit func(*coScenario)) {
 						continue
 					}
 					emit(&coScenario{mr: mr, fails: fails, code: code, sse: sse})
+					if fails <= 1 {
+						emit(&coScenario{mr: mr, fails: fails, code: code, sse: sse, strict: true})
+					}
 				}
 			}
 		}
@@ -728,13 +913,13 @@ func coGenerate(emit func(*coScenario)) {
 		if http.StatusText(c) == "" {
 			c = 200 + rng.Intn(7)
 		}
-		emit(&coScenario{mr: []int{0, 1, 2, 3, -1}[rng.Intn(5)], fails: rng.Intn(5), code: c, sse: rng.Intn(3) != 0})
+		emit(&coScenario{mr: []int{0, 1, 2, 3, -1}[rng.Intn(5)], fails: rng.Intn(5), code: c, sse: rng.Intn(3) != 0, strict: rng.Intn(3) == 0})
 	}
 }
 
 func cwAnswers() []string {
 	return []string{"terr", "hang", "st401", "st403", "st401r", "st503", "st500r", "st429", "st404", "st404r", "st400", "st405", "st502",
-		"ok:json:s", "ok:json:x", "ok:jsonbad:s", "ok:jsoncut:s", "ok:jsonhang:s", "ok:sse:s", "ok:sse:x", "ok:other:s"}
+		"ok:json:s", "ok:json:x", "ok:jsonbad:s", "ok:jsoncut:s", "ok:jsonhang:s", "ok:sse:s", "ok:sse:x", "ok:other:s", "ok:accepted:s", "ok:sseopen:s", "ok:ssecuth:s", "ok:ssecutt:s"}
 }
 
 func cwIsAuthStatus(a string) bool { return strings.HasPrefix(a, "st401") || strings.HasPrefix(a, "st403") }
@@ -807,6 +992,44 @@ func cwGenerate(emit func(*cwScenario, string)) {
 			}
 		}
 	}
+	// ClientSession.Close while the message is on its way: every handler x ctx x close time x every answer (x the
+	// waiting answers to a retried POST)
+	for _, kind := range []string{"call", "notif"} {
+		for _, auth := range []string{"none", "grant", "block"} {
+			for _, cancel := range []bool{false, true} {
+				for _, cl := range []string{"w", "f"} {
+					for _, a1 := range ans {
+						a2s := []string{"terr"}
+						if auth == "grant" && cwIsAuthStatus(a1) {
+							a2s = []string{"ok:json:s", "hang", "ok:jsonhang:s", "ok:sseopen:s", "ok:ssecuth:s", "ok:ssecutt:s", "st503"}
+						}
+						for _, a2 := range a2s {
+							put(&cwScenario{kind: kind, auth: auth, cancel: cancel, a1: a1, a2: a2, close: cl}, "wc")
+						}
+					}
+				}
+			}
+		}
+	}
+	// the modes: the sessionless protocol (2026-07-28 after server/discover: no session id, no standalone stream, no
+	// DELETE at Close unless an answer brought an id) and strict mode, x kind x handler x ctx x every answer
+	for _, mode := range [][2]string{{"new", ""}, {"", "1"}, {"new", "1"}} {
+		for _, kind := range []string{"call", "notif"} {
+			for _, auth := range []string{"none", "grant"} {
+				for _, cancel := range []bool{false, true} {
+					for _, a1 := range ans {
+						a2s := []string{"terr"}
+						if auth == "grant" && cwIsAuthStatus(a1) {
+							a2s = []string{"ok:json:s", "ok:json:x", "ok:accepted:s", "ok:sse:x", "hang", "st404", "st503", "ok:other:s"}
+						}
+						for _, a2 := range a2s {
+							put(&cwScenario{proto: mode[0], strict: mode[1] == "1", kind: kind, auth: auth, cancel: cancel, a1: a1, a2: a2}, "wm")
+						}
+					}
+				}
+			}
+		}
+	}
 	rng := verifRng(4242)
 	n := verifN(300, 3000)
 	if limit >= 0 {
@@ -837,6 +1060,16 @@ func cwGenerate(emit func(*cwScenario, string)) {
 		if rng.Intn(4) == 0 {
 			s.bg = "posthang"
 		}
+		if rng.Intn(4) == 0 {
+			s.proto = "new"
+		}
+		if rng.Intn(4) == 0 {
+			s.strict = true
+		}
+		if rng.Intn(5) == 0 && s.bg == "" && s.ts == "" {
+			// (with another call in flight Close waits for that one too; with a failing token source Close's DELETE is not sent)
+			s.close = []string{"w", "f"}[rng.Intn(2)]
+		}
 		if s.auth == "grant" && rng.Intn(2) == 0 {
 			s.a1 = []string{"st401", "st403", "st401r", "st403r"}[rng.Intn(4)]
 		}
@@ -856,8 +1089,8 @@ func TestVerifClientWrite(t *testing.T) {
 			ln = strings.TrimSpace(ln)
 			if strings.HasPrefix(ln, "oscn ") {
 				if s, err := coParseScenario(ln); err == nil {
-					g, p, b := coRun(t, s)
-					coEmit(out, cs, s, g, p, b, "corpus")
+					g, p, b, c := coRun(t, s)
+					coEmit(out, cs, s, g, p, b, c, "corpus")
 				} else {
 					out.line(cs, "reset", "ok")
 					out.line(cs, ln, "bad-op", "corpus")
@@ -891,8 +1124,8 @@ func TestVerifClientWrite(t *testing.T) {
 	n := 0
 	if os.Getenv("VERIF_CASES") == "" {
 		coGenerate(func(s *coScenario) {
-			g, p, b := coRun(t, s)
-			coEmit(out, fmt.Sprintf("wo%d", n), s, g, p, b, "fam-wo")
+			g, p, b, c := coRun(t, s)
+			coEmit(out, fmt.Sprintf("wo%d", n), s, g, p, b, c, "fam-wo")
 			n++
 		})
 	}
